@@ -120,10 +120,11 @@ Lemma impl_replace_refines pat repl flags s :
   run_pure (impl_replace E pat repl flags s) = spec_replace E pat repl flags s.
 Proof.
   unfold impl_replace, spec_replace.
-  destruct (negb (existsb (fun f => mem_cp f flags) replace_shortcut_blockers)
+  destruct (replace_shortcut_present
+            && negb (existsb (fun f => mem_cp f flags) replace_shortcut_blockers)
             && negb (existsb (fun c => mem_cp c replace_meta) pat)
             && negb (contains s pat))%bool eqn:Hsc.
-  - apply andb_true_iff in Hsc as [Hsc Hc]. apply andb_true_iff in Hsc as [Hb Hm].
+  - apply andb_true_iff in Hsc as [Hsc Hc]. apply andb_true_iff in Hsc as [Hsc Hm]. apply andb_true_iff in Hsc as [_ Hb].
     apply negb_true_iff in Hb, Hm, Hc.
     destruct (shortcut_flags_ms flags Hb) as [Hg Hpfx].
     assert (Hmeta: forall c, In c pat -> mem_cp c replace_meta = false).
